@@ -81,7 +81,7 @@ def render_iri(iri, prefixes, style):
     return "<%s>" % iri
 
 
-def render(sel, prefixes, styles):
+def render(sel, prefixes, styles, multiline_ok=False):
     """textual node selector; styles: list of ints consumed per IRI"""
     it = iter(list(styles) + [0] * 10)
     if sel["kind"] == "node":
@@ -101,4 +101,13 @@ def render(sel, prefixes, styles):
             else:
                 ts.append(render_iri(t, prefixes, next(it)))
         pats.append(" ".join(ts))
-    return 'SPARQL "select %s?v where { %s }"' % ("distinct " if sel.get("distinct") else "", " . ".join(pats))
+    # layouts of the query text: what follows the projected variable is a blank, the group itself, a tab, upper-case keywords,
+    # or (JSON shape maps only, where a selector may span lines) a line break
+    k = sel.get("layout", 0) % len(SPARQL_LAYOUTS)
+    lay = SPARQL_LAYOUTS[k if (multiline_ok or k != NEWLINE_LAYOUT) else 1]
+    return 'SPARQL "' + lay % ("distinct " if sel.get("distinct") else "", " . ".join(pats)) + '"'
+
+
+SPARQL_LAYOUTS = ["select %s?v where { %s }", "select %s?v{ %s }", "select %s?v\twhere { %s }", "SELECT %s?v WHERE { %s }",
+                  "select %s?v where{%s}", "select  %s?v  where  {  %s  }", "select %s?v\nwhere {\n %s\n}"]
+NEWLINE_LAYOUT = 6
